@@ -141,6 +141,22 @@ def assigned(stmts):
     return out
 
 
+def touches_self(stmts):
+    """may the code change the object (or anything reachable from self)?  Used for loops over self / views of its
+    attributes: the regenerated loop iterates a snapshot, which is only right when the body leaves the object alone."""
+    for s in stmts:
+        for n in ast.walk(s):
+            if isinstance(n, ast.Call):
+                for w in ast.walk(n.func):
+                    if isinstance(w, ast.Name) and w.id in ("self", "super", "list", "dict", "setattr", "delattr"):
+                        return True
+            if isinstance(n, (ast.Attribute, ast.Subscript)) and isinstance(n.ctx, (ast.Store, ast.Del)):
+                for w in ast.walk(n):
+                    if isinstance(w, ast.Name) and w.id == "self":
+                        return True
+    return False
+
+
 def always_returns(stmts):
     if not stmts:
         return False
@@ -304,6 +320,16 @@ class FnTr(object):
             return "'(%s, %s)" % (cn(tg.elts[0].id), cn(tg.elts[1].id)), env
         refuse(tg, "loop target for elements of type %s" % et)
 
+    READS = ("indexM ", "iter_self", "len_self", "get_buffindex", "get_key", "get_functions", "get_fields", "ret ", "mapM ")
+
+    def only_reads(self, node, inner):
+        """the element expression of a comprehension is evaluated once per element while the iteration is under way:
+        it may read the object but must not change it (the regenerated loop iterates a snapshot)"""
+        for _, m in inner:
+            # (a nested mapM was itself checked when it was built)
+            if not m.startswith(self.READS):
+                refuse(node, "comprehension whose element expression has an effect (%s)" % m.split(" ")[0])
+
     def comprehension(self, e, env, binds, kind):
         if len(e.generators) != 1 or e.generators[0].ifs or e.generators[0].is_async:
             refuse(e, "comprehension with several clauses / a condition")
@@ -314,6 +340,7 @@ class FnTr(object):
         v, t = self.expr(e.elt, env2, inner)
         x = self.temp()
         if inner:
+            self.only_reads(e, inner)
             binds.append((x, "mapM (fun %s => %s) %s" % (p, self.wrap(inner, "ret %s" % v), it)))
             return x, "%s %s" % (kind, t)
         return "(map (fun %s => %s) %s)" % (p, v, it), "%s %s" % (kind, t)
@@ -339,6 +366,7 @@ class FnTr(object):
                 refuse(e, "conditional dict comprehension that is not a filter")
             return "(dict_filter (fun %s %s => %s) %s)" % (k, v, c, it), "dict"
         if inner:
+            self.only_reads(e, inner)
             x = self.temp()
             binds.append((x, "mapM (fun %s => %s) %s" % (p, self.wrap(inner, "ret (%s, %s)" % (k, v)), it)))
             return "(dict_of %s)" % x, "dict"
@@ -804,6 +832,10 @@ class FnTr(object):
                 return "bind (for_chapters (%s)) (fun _ => %s)" % (body, nxt(env))
             return "bind (%s (fun %s %s => %s) %s) (fun %s => %s)" \
                 % (comb, cn(keyname) if keyname else "_", pat(acc), body, tup(acc), pat(acc), nxt(env))
+        view = it.func.value if isinstance(it, ast.Call) and isinstance(it.func, ast.Attribute) \
+            and it.func.attr in ("items", "values", "keys") and not it.args and not it.keywords else it
+        if (is_self(view) or self_attr(view) is not None) and touches_self(s.body):
+            refuse(s, "loop over the object (or a view of its attributes) whose body may change the object")
         binds = []
         itx, et = self.iterable(it, env, binds)
         # a loop over the items of a local dict must not change that dict unless it iterates a copy (list(..))
